@@ -23,7 +23,7 @@ every node of the tree and on recently detached nodes.  See DESIGN.md 4 / C16.
 import itertools
 
 from traits.api import (
-    HasTraits, Int, Instance, List, Dict, Set, Str, push_exception_handler,
+    Any, HasTraits, Int, Instance, List, Dict, Set, Str, push_exception_handler,
 )
 from traits.observation.api import (
     push_exception_handler as obs_push_exception_handler,
@@ -38,7 +38,11 @@ META = {
     "rule": ("case = one history: (name pair out of 102 (quick) / 163 (thorough) generated from "
              "links c/d (Instance), cs (List), cd (Dict values), ss (Set), groups [a,b], separators "
              "'.'/':' at every position, depth 1-3, final v or [v,w]) x handler flavour (functions "
-             "/ bound methods) x random tree x 16-20 (thorough: 16-28) random operations (link reassignment to fresh subtree / None, "
+             "/ bound methods) x node flavour (plain identity-equal nodes / nodes with value "
+             "equality by a tag, so that links and whole containers get replaced by distinct but "
+             "EQUAL objects / nodes whose links have dynamic defaults creating fresh children, "
+             "left unread until the listeners' own hook-up materialises them; plus a 4% stratum "
+             "of its own for value-equal whole-dict replacements, an open finding) x random tree x 16-20 (thorough: 16-28) random operations (link reassignment to fresh subtree / None, "
              "whole-container assignment, every mutating list/dict/set method, re-insertion of a "
              "detached subtree root, on attached on-path, attached off-path and detached nodes; "
              "mutation - mostly insertion of fresh subtrees - of a container OBJECT that an earlier "
@@ -62,13 +66,26 @@ META = {
                   "after_remove_nonvacuous_silent": 10000, "detached_nonvacuous_silent": 40000,
                   "reinsert_nonempty_matched": 2000,
                   # replaced ("stale") containers whose former owner.attr is on the path
-                  "stale_hot_ops_silent": 800, "stale_nonvacuous_silent": 12000},
+                  "stale_hot_ops_silent": 800, "stale_nonvacuous_silent": 12000,
+                  # value-equal nodes: distinct-but-equal replacements of on-path links
+                  "eq_equal_replacements_onpath": 600, "link_equal_silent_matched": 500,
+                  "eqd_patterns_drawn": 30,
+                  # dynamic defaults materialised by the hook-up itself, and probes of
+                  # the objects they created (attached / detached / after removal)
+                  "dyn_defaults_by_hookup": 500, "dyn_nonempty_matched": 2500,
+                  "dyn_detached_nonvacuous_silent": 3500,
+                  "dyn_after_remove_nonvacuous_silent": 1500},
         "thorough": {"evaluations": 8000000, "final_nonempty_matched": 500000,
                      "link_reported_matched": 35000, "link_colon_silent_matched": 35000,
                      "item_dot_matched": 40000, "item_colon_silent_matched": 40000,
                      "after_remove_nonvacuous_silent": 150000, "detached_nonvacuous_silent": 600000,
                      "reinsert_nonempty_matched": 30000,
-                     "stale_hot_ops_silent": 12000, "stale_nonvacuous_silent": 200000},
+                     "stale_hot_ops_silent": 12000, "stale_nonvacuous_silent": 200000,
+                     "eq_equal_replacements_onpath": 7000, "link_equal_silent_matched": 6000,
+                     "eqd_patterns_drawn": 350,
+                     "dyn_defaults_by_hookup": 6000, "dyn_nonempty_matched": 30000,
+                     "dyn_detached_nonvacuous_silent": 40000,
+                     "dyn_after_remove_nonvacuous_silent": 18000},
     },
     "assumptions": [
         "graphs are tree-shaped: every object is referenced from at most one place",
@@ -79,6 +96,13 @@ META = {
         "not an intermediate link: its mutation and the leaves of objects only reachable through "
         "it must be silent for every voice; its members are not re-inserted elsewhere while it "
         "still refers to them (tree shape)",
+        "node flavour 'eq': reachability and tree shape are about object identity; replacing a "
+        "link value by a distinct but equal one is not reported by either system (equality "
+        "comparison mode; only agreement is demanded) but the final-attribute law applies to the "
+        "new and the old object all the same; set algebra with foreign-but-equal objects is kept "
+        "out (TraitSet reports the foreign object as removed: C07's subject)",
+        "node flavour 'dyn': `del obj.link` (reset to default) is not part of the alphabet: the "
+        "on_trait_change documentation does not mention deletion",
         "a whole-container assignment whose old and new contents are equal (both empty) is not a "
         "change for either system (equality comparison mode); only agreement is demanded there",
     ],
@@ -97,6 +121,8 @@ class N(HasTraits):
     cd = Dict(Str, Instance("N"))
     ss = Set(Instance("N"))
     ser = Int
+    tag = Int          # value the "eq" flavour compares by
+    dyn = Any          # (pool, {attr: literal spec of the default}, sink): "dyn" flavour
 
     def __repr__(self):
         return "N%d" % self.__dict__.get("ser", -1)
@@ -104,6 +130,77 @@ class N(HasTraits):
     def __hash__(self):
         # deterministic set iteration order (replays); identity equality kept
         return self.__dict__.get("ser", 0)
+
+
+class NE(N):
+    """Node flavour "eq": value equality (by tag), consistent hash.  Distinct
+    objects may compare equal; 'tree-shaped' stays a statement about identity."""
+
+    def __eq__(self, other):
+        return isinstance(other, N) and \
+            self.__dict__.get("tag", 0) == other.__dict__.get("tag", 0)
+
+    def __ne__(self, other):
+        return not self.__eq__(other)
+
+    def __hash__(self):
+        return 7 + self.__dict__.get("tag", 0)
+
+
+class ND(N):
+    """Node flavour "dyn": links may have dynamic defaults that create fresh
+    child objects on first read (`_cs_default` returning [N(), N()], the
+    analogue of Instance(N, ()) for c/d).  The harness never reads a link
+    before the systems under test do (the model walks instance __dict__)."""
+
+    def _dd(self, attr, empty):
+        d = self.__dict__.get("dyn")
+        if not d or attr not in d[1]:
+            return empty
+        pool, specs, sink = d
+        sp = specs[attr]
+        k = KIND[attr]
+        if k == "inst":
+            val = build(sp, pool) if sp["s"] not in pool else None
+            made = [val] if val is not None else []
+        elif k == "dict":
+            val = {key: build(x, pool) for key, x in sp.items() if x["s"] not in pool}
+            made = list(val.values())
+        else:
+            made = [build(x, pool) for x in sp if x["s"] not in pool]
+            val = set(made) if k == "set" else made
+        sink.append((ser(self), attr, made))
+        return val
+
+    def _c_default(self):
+        return self._dd("c", None)
+
+    def _d_default(self):
+        return self._dd("d", None)
+
+    def _cs_default(self):
+        return self._dd("cs", [])
+
+    def _cd_default(self):
+        return self._dd("cd", {})
+
+    def _ss_default(self):
+        return self._dd("ss", set())
+
+
+# "eqd" is the stratum of its own for value-equal whole-DICT replacements (an open
+# finding on the unchanged tree, see run_history); "eq" never draws that pattern.
+NODE_CLASSES = {"plain": N, "eq": NE, "eqd": NE, "dyn": ND}
+
+
+class Pool(dict):
+    """serial -> node for one history, plus the node class and the log of
+    dynamic defaults materialised so far."""
+
+    def __init__(self, nf="plain"):
+        dict.__init__(self)
+        self.cls = NODE_CLASSES[nf]
+        self.sink = []
 
 
 ATTRS = ("c", "d", "cs", "cd", "ss")
@@ -151,6 +248,17 @@ def kids(n, attr):
     if k == "set":
         return sorted(val, key=ser)
     return list(val)
+
+
+def plain_copy(val):
+    """Plain-Python copy of a link value, for value comparison."""
+    if isinstance(val, list):
+        return list(val)
+    if isinstance(val, dict):
+        return dict(val)
+    if isinstance(val, (set, frozenset)):
+        return set(val)
+    return val
 
 
 def all_kids(n):
@@ -340,37 +448,58 @@ def install_exception_channels():
 # a missing key means "never assigned" (the default is not materialised).
 
 
-def gen_spec(rng, counter, pair, depth, budget):
-    """Random subtree whose root will sit at `depth` below the observed root."""
+def gen_spec(rng, counter, pair, depth, budget, nf="plain"):
+    """Random subtree whose root will sit at `depth` below the observed root.
+    nf: node flavour ("plain", "eq": tags, "dyn": dynamic defaults)."""
     spec = {"s": next(counter)}
+    if nf in ("eq", "eqd") and rng.random() < 0.2:
+        spec["t"] = 1            # most nodes share tag 0: replacements are mostly equal
     k = len(pair.path)
     if depth > k or budget[0] <= 0:
         return spec
     hot = pair.path[depth] if depth < k else ()
     for a in ATTRS:
         p = 0.8 if a in hot else (0.10 if depth < k else 0.05)
+        dynp = 0.0
+        if nf == "dyn":
+            # leave the link unassigned and unread; its default creates children
+            dynp = 0.45 if a in hot else 0.04
+            p *= 0.5
         r = rng.random()
         if r >= p:
             if r > 0.93:
                 # explicitly assigned empty value
                 spec[a] = None if KIND[a] == "inst" else ({} if KIND[a] == "dict" else [])
+            elif dynp and rng.random() < dynp:
+                sub = {}
+                _fill(sub, a, a in hot, rng, counter, pair, depth, budget, nf)
+                spec.setdefault("dyn", {})[a] = sub[a]
             continue
-        if KIND[a] == "inst":
-            budget[0] -= 1
-            spec[a] = gen_spec(rng, counter, pair, depth + 1, budget)
-        else:
-            n = rng.choice((1, 1, 2, 2, 3)) if a in hot else 1
-            budget[0] -= n
-            if KIND[a] == "dict":
-                keys = rng.sample(KEYS, n)
-                spec[a] = {key: gen_spec(rng, counter, pair, depth + 1, budget) for key in sorted(keys)}
-            else:
-                spec[a] = [gen_spec(rng, counter, pair, depth + 1, budget) for _ in range(n)]
+        _fill(spec, a, a in hot, rng, counter, pair, depth, budget, nf)
     return spec
 
 
+def _fill(spec, a, is_hot, rng, counter, pair, depth, budget, nf):
+    if KIND[a] == "inst":
+        budget[0] -= 1
+        spec[a] = gen_spec(rng, counter, pair, depth + 1, budget, nf)
+    else:
+        n = rng.choice((1, 1, 2, 2, 3)) if is_hot else 1
+        budget[0] -= n
+        if KIND[a] == "dict":
+            keys = rng.sample(KEYS, n)
+            spec[a] = {key: gen_spec(rng, counter, pair, depth + 1, budget, nf)
+                       for key in sorted(keys)}
+        else:
+            spec[a] = [gen_spec(rng, counter, pair, depth + 1, budget, nf) for _ in range(n)]
+
+
 def build(spec, pool):
-    n = N(ser=spec["s"])
+    n = pool.cls(ser=spec["s"])
+    if "t" in spec:
+        n.tag = spec["t"]
+    if "dyn" in spec:
+        n.dyn = (pool, spec["dyn"], pool.sink)
     pool[spec["s"]] = n
     for a in ATTRS:
         if a not in spec:
@@ -416,11 +545,18 @@ class History:
     def __init__(self, ctx, pair, flavour, root_spec):
         self.ctx = ctx
         self.pair = pair
+        # flavour = "<handler flavour>+<node flavour>", e.g. "fn+plain", "method+eq"
         self.flavour = flavour
-        self.pool = {}
+        hf, _, nf = flavour.partition("+")
+        self.nf = nf or "plain"
+        self.pool = Pool(self.nf)
         self.rec = Rec()
         self.root = build(root_spec, self.pool)
-        self.h4, self.h0, self.ho = self.rec.handlers(flavour)
+        self.h4, self.h0, self.ho = self.rec.handlers(hf)
+        # nodes created by a dynamic default that the hook-up of one of the
+        # systems (not a read by the harness) materialised
+        self.dyn_hook_nodes = set()
+        self.sink_seen = 0
         self.registered = False
         self.was_removed = False
         self.detached_roots = []      # nodes without any referrer
@@ -463,6 +599,7 @@ class History:
             raise Violation("register/raised/%s" % type(e).__name__,
                             "registration of %r raised %r" % (self.pair.desc(), e))
         self.registered = True
+        self.absorb_defaults()
         self.check_exc("register")
         self.rec.clear()
 
@@ -507,6 +644,23 @@ class History:
             for n in nodes:
                 out[ser(n)] = i
         return out
+
+    # -- dynamic defaults ------------------------------------------------------
+    def absorb_defaults(self, target=None):
+        """Account for the dynamic defaults materialised since the last call.
+        target: (serial, attr) the harness itself read, if any."""
+        sink = self.pool.sink
+        while self.sink_seen < len(sink):
+            owner, attr, made = sink[self.sink_seen]
+            self.sink_seen += 1
+            if not made:
+                continue
+            if (owner, attr) != target:
+                self.count("dyn_defaults_by_hookup")
+                for x in made:
+                    self.dyn_hook_nodes.update(ser(y) for y in walk(x)[0])
+            else:
+                self.count("dyn_defaults_by_harness_read")
 
     # -- stale containers -----------------------------------------------------
     def stale_members(self, e):
@@ -641,6 +795,9 @@ class History:
                         if on_final and f in self.pair.finals:
                             self.count("after_remove_nonvacuous_silent")
                             self.sig("probe-after-remove", f)
+                        if s in self.dyn_hook_nodes and s in self.ever_final \
+                                and f in self.pair.finals:
+                            self.count("dyn_after_remove_nonvacuous_silent")
                         if not is_att and s in wb_final and f in self.pair.finals:
                             self.count("after_remove_stale_nonvacuous_silent")
                     continue
@@ -658,6 +815,9 @@ class History:
                                     % (what, Ll + Li + Lx, Ol + Ox + r.C))
                 if expected:
                     self.ever_final.add(s)
+                    if s in self.dyn_hook_nodes:
+                        self.count("dyn_nonempty_matched")
+                        self.sig("probe-dyn-default", f)
                     self.count("final_nonempty_matched")
                     self.count("nonempty:" + self.pair.cls)
                     if s in self.reinserted:
@@ -670,6 +830,8 @@ class History:
                         if s in self.ever_final and f in self.pair.finals:
                             # was called for while attached, silent now
                             self.count("detached_nonvacuous_silent")
+                            if s in self.dyn_hook_nodes:
+                                self.count("dyn_detached_nonvacuous_silent")
                             self.sig("probe-detached", f, self.trigger)
                         if s in wb_final and f in self.pair.finals:
                             # only reachable through a replaced container whose
@@ -722,6 +884,7 @@ class History:
         before_ids = [ser(x) for x in before]
         old_obj = m.__dict__.get(attr)
         old_enc = enc(old_obj) if mode != "item" else None
+        old_copy = plain_copy(old_obj) if mode != "item" else None
         r = self.rec
         r.clear()
         del EXC[:]
@@ -733,7 +896,28 @@ class History:
             raise Violation("raised/%s/%s" % (type(e).__name__, opclass),
                             "operation %r raised %r" % (op, e))
         self.nops += 1
+        self.absorb_defaults((s, attr))
         self.check_exc(opclass)
+        # a distinct object that compares equal to the one it replaces (node
+        # flavour "eq"; trivially, an empty container replacing an empty one)
+        new_obj = m.__dict__.get(attr)
+        same_value = equal_repl = False
+        if mode != "item" and new_obj is not old_obj and old_obj is not None \
+                and new_obj is not None:
+            try:
+                same_value = bool(old_copy == plain_copy(new_obj))
+            except Exception:
+                same_value = False
+            equal_repl = same_value and (KIND[attr] == "inst" or len(new_obj) > 0)
+        if equal_repl:
+            # a value-equal DICT replacement gets one class whatever the step
+            # (open finding: _register_dict hooks handle_dict with the
+            # equality-filtering dispatch); list/set/instance keep the step class
+            self.trigger = "assign-equal@%s" % ("dict" if KIND[attr] == "dict" else step)
+            if on_path:
+                self.count("eq_equal_replacements_onpath")
+                if KIND[attr] == "dict":
+                    self.count("eqd_patterns_drawn")
         if (name == "assign" and len(op) > 4 and op[4] is not None and old_obj is not None
                 and m.__dict__.get(attr) is not old_obj):
             # the caller keeps a reference to the replaced container object
@@ -781,16 +965,16 @@ class History:
             new_enc = enc(new_val)
             if KIND[attr] == "inst":
                 changed = old_enc != new_enc
-                undecided = False
             else:
                 changed = before_ids != after_ids
-                # equal contents (both empty): not a change under equality
-                # comparison; only agreement is demanded
-                undecided = not changed
-            if on_path and sep == "." and changed:
-                expected = [(enc(m), attr, old_enc, new_enc)]
-            elif undecided and on_path and sep == ".":
+            # a distinct but equal value (both empty; value-equal nodes): not a
+            # change under the equality comparison mode, neither system
+            # reports it; only agreement is demanded
+            undecided = same_value
+            if undecided and on_path and sep == ".":
                 expected = None
+            elif on_path and sep == "." and changed:
+                expected = [(enc(m), attr, old_enc, new_enc)]
             else:
                 expected = []
             self.compare("link", Ll, Ol, expected, what, step)
@@ -805,6 +989,9 @@ class History:
             if Ll:
                 self.count("link_reported_matched")
                 self.sig(opclass, pos, "reported", bool(gone), bool(came))
+            elif equal_repl and on_path:
+                self.count("link_equal_silent_matched")
+                self.sig(opclass, pos, "equal-silent", bool(gone), bool(came))
             elif on_path and sep == ":" and changed:
                 self.count("link_colon_silent_matched")
                 self.sig(opclass, pos, "silent", bool(gone), bool(came))
@@ -876,6 +1063,7 @@ class History:
             raise Violation("raised/%s/%s" % (type(exc).__name__, opclass),
                             "operation %r raised %r" % (op, exc))
         self.nops += 1
+        self.absorb_defaults()
         self.check_exc(opclass)
         self.last_stale = op[1]
         after = kids(holder, attr)
@@ -1153,7 +1341,7 @@ class History:
                     x = ("R", ser(rng.choice(cands)))
                     used.add(x[1])
             if x is None:
-                x = gen_spec(rng, counter, pair, dm + 1, budget)
+                x = gen_spec(rng, counter, pair, dm + 1, budget, self.nf)
             return x
 
         s = ser(m)
@@ -1163,15 +1351,36 @@ class History:
             if cur is not None and rng.random() < 0.25:
                 return ("inst", s, attr, None)
             return ("inst", s, attr, new())
+        eqf = self.nf in ("eq", "eqd")
+        cur = m.__dict__.get(attr)
+        if self.nf == "eqd" and kind == "dict" and cur and rng.random() < 0.75:
+            # the stratum's pattern: same keys, fresh value-equal objects
+            xs = {}
+            for key in sorted(cur):
+                x = gen_spec(rng, counter, pair, dm + 1, budget, self.nf)
+                x.pop("t", None)
+                if cur[key].__dict__.get("tag", 0):
+                    x["t"] = 1
+                xs[key] = x
+            return ("assign", s, attr, xs, None)
         if rng.random() < 0.22:
             n = rng.choice((0, 0, 1, 1, 2, 3))
+            if eqf and cur is not None and rng.random() < 0.5:
+                n = min(len(cur), 3)     # same size: often a value-equal replacement
             # most of the time the caller keeps the container being replaced
             # (a stale alias, mutated later by "stale" operations)
             sid = next(counter) if (m.__dict__.get(attr) is not None
                                     and rng.random() < 0.7) else None
             if kind == "dict":
-                return ("assign", s, attr, {key: new() for key in sorted(rng.sample(KEYS, n))},
-                        sid)
+                xs = {key: new() for key in sorted(rng.sample(KEYS, n))}
+                if self.nf == "eq" and cur and self.dict_would_equal(cur, xs):
+                    # kept for the "eqd" stratum: make the replacement unequal
+                    flip = [x for x in xs.values() if isinstance(x, dict)]
+                    if flip:
+                        flip[0]["t"] = 1 - flip[0].get("t", 0)
+                    else:
+                        xs = {}
+                return ("assign", s, attr, xs, sid)
             return ("assign", s, attr, [new() for _ in range(n)], sid)
         if kind == "list":
             cur = m.__dict__.get("cs")
@@ -1254,9 +1463,23 @@ class History:
             return ("set", s, meth, sel)
         if meth in ("symmetric_difference_update", "ixor"):
             sel = [x for x in mem if rng.random() < 0.4]
-            return ("set", s, meth, sel, [new() for _ in range(rng.choice((0, 1, 1, 2)))])
+            # value-equal nodes: a fresh object equal to a member would remove that
+            # member by value (set algebra on foreign-but-equal objects is C07's)
+            return ("set", s, meth, sel,
+                    [] if eqf else [new() for _ in range(rng.choice((0, 1, 1, 2)))])
         return ("set", s, meth)
 
+
+    def dict_would_equal(self, cur, xs):
+        """Would assigning the literal values xs give a dict equal (by node
+        value) to the current one?"""
+        def tag_of(x):
+            if isinstance(x, dict):
+                return x.get("t", 0)
+            n = self.pool.get(x[1])
+            return n.__dict__.get("tag", 0) if n is not None else 0
+        return ({k: v.__dict__.get("tag", 0) for k, v in cur.items()}
+                == {k: tag_of(x) for k, x in xs.items()})
 
     def gen_stale_op(self, rng, counter, nodes, depths):
         """One mutation of a replaced container: mostly insertions of fresh
@@ -1273,7 +1496,7 @@ class History:
         budget = [4]
 
         def new():
-            return gen_spec(rng, counter, pair, depth, budget)
+            return gen_spec(rng, counter, pair, depth, budget, self.nf)
 
         kind = KIND[e["attr"]]
         obj = e["obj"]
@@ -1315,6 +1538,8 @@ class History:
         mem = sorted(ser(x) for x in obj)
         if grow:
             meth = rng.choice(("add", "add", "update", "ior", "symmetric_difference_update"))
+            if meth == "symmetric_difference_update" and self.nf in ("eq", "eqd"):
+                meth = "add"
             if meth == "add":
                 return ("stale", sid, meth, new())
             if meth == "symmetric_difference_update":
@@ -1376,12 +1601,18 @@ def shrink(pair, flavour, root_spec, ops, key, budget=120):
 def run_history(ctx, h_index, pairs):
     rng = ctx.rng("hist", h_index)
     pair = pairs[h_index % len(pairs)]
-    flavour = "method" if rng.random() < 0.35 else "fn"
+    # node flavours; "eqd" is a small stratum of its own: it alone draws value-equal
+    # whole-dict replacements, which hit an open finding on the unchanged tree and
+    # would otherwise truncate the other histories
+    r = rng.random()
+    nf = "plain" if r < 0.42 else ("eq" if r < 0.66 else ("dyn" if r < 0.95 else "eqd"))
+    flavour = ("method" if rng.random() < 0.35 else "fn") + "+" + nf
     counter = itertools.count(1)
-    if rng.random() < 0.15:
+    if rng.random() < 0.15 and nf != "dyn":
         root_spec = {"s": 0}
     else:
-        root_spec = gen_spec(rng, itertools.chain([0], counter), pair, 0, [14])
+        root_spec = gen_spec(rng, itertools.chain([0], counter), pair, 0, [14], nf)
+    ctx.count("histories_" + nf)
     nsteps = rng.randint(16, ctx.scale(20, 28))
     t_remove = rng.randint(nsteps * 5 // 10, nsteps - 2) if rng.random() < 0.9 else None
     rereg = t_remove is not None and rng.random() < 0.3
@@ -1401,6 +1632,12 @@ def run_history(ctx, h_index, pairs):
             ops.append(op)
             h.apply(op)
             ctx.count("history_ops")
+            if nf == "eqd" and h.trigger == "assign-equal@dict":
+                # the stratum's pattern has been drawn and probed: stop, so that
+                # the open finding shows under its own two keys only and never as
+                # an echo in a later operation
+                ctx.count("eqd_patterns_probed")
+                break
     except Violation as v:
         spec2, ops2 = root_spec, ops
         if ctx.viol_per_key.get(v.key, 0) < 2:
@@ -1408,12 +1645,13 @@ def run_history(ctx, h_index, pairs):
                 spec2, ops2 = shrink(pair, flavour, root_spec, ops, v.key)
             except Exception:
                 pass
-        ctx.violation(v.key, v.msg + "  [shrunk history: root=%r ops=%r]" % (spec2, ops2),
-                      {"pair": pair.desc(), "pair_class": pair.cls, "handler_flavour": flavour,
+        ctx.violation(v.key, v.msg + "  [shrunk history: flavour=%s root=%r ops=%r]"
+                      % (flavour, spec2, ops2),
+                      {"pair": pair.desc(), "pair_class": pair.cls, "flavour": flavour,
                        "root_spec": spec2, "ops": ops2, "unshrunk_ops": len(ops),
                        "complaint": v.msg})
     if h_index < 4 * ctx.nshards:
-        ctx.sample({"pair": pair.desc(), "handler_flavour": flavour, "root_spec": root_spec,
+        ctx.sample({"pair": pair.desc(), "flavour": flavour, "root_spec": root_spec,
                     "ops": ops[:5]})
 
 
